@@ -100,7 +100,55 @@ fn cli_text(graph: &Graph, key: &str, depth: u8) -> String {
     patch.export_key(&key.into()).unwrap()
 }
 
+/// subprocess entry `iwe-verif squash-probe <case.json>`: the squash alone, so that a stack overflow (an
+/// abort, not a panic) or a run-away expansion is an observation about this one input
+pub fn squash_probe(path: &str) {
+    let v: serde_json::Value = serde_json::from_str(&std::fs::read_to_string(path).unwrap()).unwrap();
+    let st: HashMap<String, String> = v["library"].as_array().unwrap().iter().map(|p| (p[0].as_str().unwrap().to_string(), p[1].as_str().unwrap().to_string())).collect();
+    let g = Graph::import(&st, MarkdownOptions::default());
+    let t = (&g).squash(&Key::from_file_name(v["key"].as_str().unwrap()), v["depth"].as_u64().unwrap() as u8);
+    let mut words = vec![];
+    tree_words(&t, &mut words);
+    println!("ok {}", words.len());
+}
+
+/// deep squashes run in a child process first: Some(what) if it is killed by a signal or runs over the deadline
+fn probe_in_child(lib: &[(String, String)], key: &str, depth: u8) -> Option<String> {
+    let dir = "/verif/harness/tmp";
+    let _ = std::fs::create_dir_all(dir);
+    let file = format!("{}/c17-{}.json", dir, std::process::id());
+    std::fs::write(&file, serde_json::to_string(&json!({"library": lib, "key": key, "depth": depth})).unwrap()).ok()?;
+    let exe = std::env::current_exe().ok()?;
+    let mut child = std::process::Command::new(exe).args(["squash-probe", &file]).stdout(std::process::Stdio::null()).stderr(std::process::Stdio::null()).spawn().ok()?;
+    let start = std::time::Instant::now();
+    let out = loop {
+        match child.try_wait() {
+            Ok(Some(status)) => {
+                use std::os::unix::process::ExitStatusExt;
+                break match status.signal() {
+                    Some(sig) => Some(format!("squash({:?}, {}) kills the process with signal {} (stack overflow / abort)", key, depth, sig)),
+                    None => None, // a panic (exit 101) is looked at in-process
+                };
+            }
+            Ok(None) if start.elapsed() > std::time::Duration::from_secs(20) => {
+                let _ = child.kill();
+                let _ = child.wait();
+                break Some(format!("squash({:?}, {}) did not terminate within 20 s", key, depth));
+            }
+            Ok(None) => std::thread::sleep(std::time::Duration::from_millis(5)),
+            Err(_) => break None,
+        }
+    };
+    let _ = std::fs::remove_file(&file);
+    out
+}
+
 pub fn check(lib: &[(String, String)], key: &str, depth: u8) -> Option<String> {
+    if depth > 6 {
+        if let Some(what) = probe_in_child(lib, key, depth) {
+            return Some(what);
+        }
+    }
     let st: HashMap<String, String> = lib.iter().cloned().collect();
     let g = dump::catch(|| Graph::import(&st, MarkdownOptions::default())).ok()?;
     let (tx, rx) = std::sync::mpsc::channel();
